@@ -85,6 +85,13 @@ fn run_one(
                     let label = s.get("a").cloned().unwrap_or(s.clone());
                     let label = if label.is_object() { label } else { s.clone() };
                     let applied = c.step(&label).await;
+                    for sr in std::mem::take(&mut c.subrecs) {
+                        let mut sr = sr;
+                        sr["run"] = json!(run); sr["id"] = id.clone(); sr["step"] = json!(i); sr["sub"] = json!(true);
+                        w.write(&sr);
+                        i += 1;
+                    }
+                    let label = if label["a"] == "Drain" { json!({"a":"DrainEnd"}) } else { label };
                     let st = c.project().await;
                     let ev = std::mem::take(&mut c.events);
                     let dl = std::mem::take(&mut c.delivered);
@@ -184,6 +191,12 @@ fn run_one(
                         }
                     }
                     let applied = c.step(&chosen).await;
+                    for sr in std::mem::take(&mut c.subrecs) {
+                        let mut sr = sr;
+                        sr["run"] = json!(run); sr["id"] = id.clone(); sr["step"] = json!(i); sr["sub"] = json!(true);
+                        w.write(&sr);
+                        i += 1;
+                    }
                     let st = c.project().await;
                     let ev = std::mem::take(&mut c.events);
                     let dl = std::mem::take(&mut c.delivered);
@@ -195,6 +208,13 @@ fn run_one(
         for lbl in [json!({"a":"Final"}), json!({"a":"Recover","rounds":16})] {
             i += 1;
             let applied = c.step(&lbl).await;
+            for sr in std::mem::take(&mut c.subrecs) {
+                let mut sr = sr;
+                sr["run"] = json!(run); sr["id"] = id.clone(); sr["step"] = json!(i); sr["sub"] = json!(true);
+                w.write(&sr);
+                i += 1;
+            }
+            let lbl = if lbl["a"] == "Final" { json!({"a":"FinalEnd"}) } else if lbl["a"] == "Recover" { json!({"a":"RecoverEnd"}) } else { lbl };
             let st = c.project().await;
             let ev = std::mem::take(&mut c.events);
             let dl = std::mem::take(&mut c.delivered);
